@@ -66,6 +66,23 @@ fn main() {
         }
         "child-lit" => std::process::exit(fam_path::child_main(&a[2])),
         "child-iso" => std::process::exit(fam_iso::child_main(a[2].parse().unwrap(), a[3].parse().unwrap())),
+        "tsan-lane" => {
+            // run by the ThreadSanitizer build: the isolation workload (models on several OS threads at once), in this one process
+            let seed: u64 = a[2].parse().unwrap();
+            let n: usize = a[3].parse().unwrap();
+            let mut bad = 0;
+            let mut iters = 0;
+            for idx in 0..n {
+                let r = fam_iso::work(0, seed, idx);
+                iters += r.iters;
+                for v in &r.viol {
+                    bad += 1;
+                    println!("TSAN-LANE-VIOLATION [{}] {}", v.clause, v.detail);
+                }
+            }
+            println!("TSAN-LANE-DONE jobs={} iterations={} violations={}", n, iters, bad);
+            std::process::exit(0)
+        }
         "child-threads" => std::process::exit(fam_path::child_threads(a[2].parse().unwrap(), a[3].parse().unwrap())),
         "shrink" => std::process::exit(props::shrink(&a[2])),
         "selftest" => std::process::exit(props::selftest()),
